@@ -222,7 +222,7 @@ def run(tier, seed):
                 'to POST /v1/peer/<ip>/json_to_bin in an Established 4-octet-AS session, the produced attribute compared by the reference '
                 'reading of the value and re-decoded; plus all ordered pairs of different kinds in one request. distinct = (attribute, '
                 'kinds, symptom)' % (len(ext), len(cp), len(lp)),
-        'samples': [{'bytes': '0202000100000001', 'text': 'route-target:65536:1'}, {'bytes': 'ffffff01', 'text': 'NO_EXPORT'}],
+        'samples': [{'attribute': it[0], 'kinds': list(it[1]), 'bytes': [b.hex() for b in it[2]]} for it in report.pick(items, seed, 3)],
         'singles': len(singles), 'pairs': len(pairs), 'exhaustive': True, 'violation_keys': summary,
     }
     report.write_evidence(PROP, tier, seed, 'exploration', cov,
